@@ -40,6 +40,10 @@ def legacy_specs(P: str = "G", runtime_only: bool = False) -> list[CS]:
                 FS("kwargs", "child", f"List[{N}]", "list", (N,), default="field(default_factory=list)"),
             ],
         ),
+        # an inner node class that can be iterated over (its statements), used in single and sequence child fields
+        CS(f"{P}IterBlock", (N,), [FS("stmts", "child", f"tuple[{N}, ...]", "tuple", (N,), default="()")], body="    def __iter__(self):\n        return iter(self.stmts)\n"),
+        # a child field that is optional *and* a sequence
+        CS(f"{P}OptSeq", (N,), [FS("items", "child", f"tuple[{N}, ...] | None", "tuple", (N,), default="None"), FS("elems", "child", f"Optional[list[{N}]]", "list", (N,), default="None")]),
         # child fields declared compare=False (still children: attached, counted into content ids, propagated through)
         CS(f"{P}Ann", (N,), [FS("target", "child", f"{N} | None", "opt", (N,), default="None"), FS("aside", "child", f"{N} | None", "opt", (N,), compare=False, default="None"), FS("extras", "child", f"tuple[{N}, ...]", "tuple", (N,), compare=False, default="()")]),
         # a leaf subclass that nevertheless has a child (fits narrowly typed fields such as Lst.opt)
